@@ -438,6 +438,9 @@ M("c17-ff-sync-domain", ["C17"], CDC, '            m.d[self._o_domain] += o.eq(i
 M("c17-ff-sync-stages", ["C17"], CDC, '                 for index in range(self._stages)]\n        for i, o in zip((self.i, *flops), flops):',
   '                 for index in range(self._stages - 1)]\n        for i, o in zip((self.i, *flops), flops):', "R-17a")
 M("c17-ff-sync-output-first", ["C17"], CDC, '            m.d[self._o_domain] += o.eq(i)\n        m.d.comb += self.o.eq(flops[-1])', '            m.d[self._o_domain] += o.eq(i)\n        m.d.comb += self.o.eq(flops[0])', "R-17a")
+M("c17-stages-one-accepted", ["C17"], CDC, '    if stages < 2:\n        raise ValueError("Synchronization stage count may not', '    if stages < 1:\n        raise ValueError("Synchronization stage count may not', "R-17a")
+M("c17-stages-nonint-accepted", ["C17"], CDC, 'if not isinstance(stages, int) or stages < 1:', 'if not isinstance(stages, int) and stages < 1:', "R-17a")
+M("c17-stages-check-dropped", ["C17"], CDC, '    if stages < 2:\n        raise ValueError("Synchronization stage count may not safely be less than 2")', '    if stages < 2:\n        pass', "R-17a")
 M("c17-async-no-posedge-req", ["C17"], CDC, '        m.submodules += RequirePosedge(self._o_domain)\n', '', "R-17b")
 M("c17-async-init-zero", ["C17"], CDC, 'flops = [Signal(1, name=f"stage{index}", init=1)', 'flops = [Signal(1, name=f"stage{index}", init=0)', "R-17b")
 M("c17-async-neg-not-inverted", ["C17"], CDC, '            m.d.comb += ResetSignal("async_ff").eq(~self.i)', '            m.d.comb += ResetSignal("async_ff").eq(self.i)', "R-17b")
@@ -722,6 +725,14 @@ M("c01-transformer-concat-reversed", ["C01"], XFRM,
   'return Concat(self.on_value(o) for o in value.parts)', 'return Concat(self.on_value(o) for o in reversed(value.parts))', "R-01m")
 M("c01-const-cast-slice-signed", ["C01"], AST,
   'return Const(value.value >> obj.start, unsigned(obj.stop - obj.start))', 'return Const(value.value >> obj.start, obj.stop - obj.start)', "R-01m")
+M("c15-flag-invert-mask-dropped", ["C15"], ENU, 'return enum_cls._amaranth_view_class_(enum_cls, ~self.as_value() & singles_mask)', 'return enum_cls._amaranth_view_class_(enum_cls, ~self.as_value())', "R-15d")
+M("c15-flag-invert-wrong-single-test", ["C15"], ENU, 'if (flag.value & (flag.value - 1)) == 0:', 'if (flag.value & (flag.value + 1)) == 0:', "R-15d")
+M("c15-flag-invert-keep-masked", ["C15"], ENU, 'enum_cls._boundary_ in (EJECT, KEEP):\n            return enum_cls._amaranth_view_class_(enum_cls, ~self.as_value())', 'enum_cls._boundary_ in (EJECT,):\n            return enum_cls._amaranth_view_class_(enum_cls, ~self.as_value())', "R-15d")
+M("c15-flag-invert-mask-seeded", ["C15"], ENU, '            singles_mask = 0\n            for flag in enum_cls:', '            singles_mask = 1\n            for flag in enum_cls:', "R-15d")
+M("c15-flag-invert-all-members", ["C15"], ENU, '                if (flag.value & (flag.value - 1)) == 0:\n                    singles_mask |= flag.value', '                if (flag.value & (flag.value - 1)) == 0 or True:\n                    singles_mask |= flag.value', "R-15d")
+M("c15-view-castable-signed-not-reinterpreted", ["C15"], DAT, '            if Shape.cast(shape).signed:\n                # The slice is unsigned; a shape-castable with a signed underlying shape (e.g.\n                # an enumeration with negative members) expects a value of that shape.\n                value = value.as_signed()\n            value = shape(value)', '            value = shape(value)', "R-15a")
+M("c15-array-format-castable-signed-raw", ["C15"], DAT, '            if shape.signed:\n                field_value = field_value.as_signed()\n            if isinstance(self._elem_shape, ShapeCastable):\n                fields.append(self._elem_shape.format(self._elem_shape(field_value), ""))\n            else:\n                fields.append(Format("{}", field_value))', '            if isinstance(self._elem_shape, ShapeCastable):\n                fields.append(self._elem_shape.format(self._elem_shape(field_value), ""))\n            else:\n                if shape.signed:\n                    field_value = field_value.as_signed()\n                fields.append(Format("{}", field_value))', "R-15d")
+M("c15-array-format-signed-raw", ["C15"], DAT, '            if shape.signed:\n                field_value = field_value.as_signed()\n            if isinstance(self._elem_shape, ShapeCastable):', '            if isinstance(self._elem_shape, ShapeCastable):', "R-15d")
 M("c15-enum-member-abs-value", ["C15"], "amaranth/lib/enum.py",
   'dict.__setitem__(namespace, member_name, member_const.value)', 'dict.__setitem__(namespace, member_name, abs(member_const.value))', "R-15f")
 M("c14-flipped-proxy-whole-array", ["C14"], "amaranth/lib/wiring.py",
